@@ -4,7 +4,7 @@
 (*  - Validates(j, S, doc): JSON Schema 2020-12 validity for the           *)
 (*    structural subset the generator emits (type incl. type arrays,       *)
 (*    properties, required, additionalProperties, items, enum, const,      *)
-(*    oneOf, anyOf, allOf, $ref).  Keywords it does not interpret          *)
+(*    oneOf, anyOf, allOf, not, $ref).  Keywords it does not interpret     *)
 (*    (pattern, numeric bounds, lengths, format) are left to the           *)
 (*    instrument (jsonschema), see C19.                                    *)
 (*  - Described(j, S, doc): every member present in j is described by S    *)
@@ -54,6 +54,7 @@ VS(doc, j, S, n) ==
   /\ (Has(S, "allOf") => \A x \in Elems(Get(S, "allOf")) : VS(doc, j, x, n - 1))
   /\ (Has(S, "anyOf") => \E x \in Elems(Get(S, "anyOf")) : VS(doc, j, x, n - 1))
   /\ (Has(S, "oneOf") => LET a == Get(S, "oneOf") IN Cardinality({i \in DOMAIN a.e : VS(doc, j, a.e[i], n - 1)}) = 1)
+  /\ (Has(S, "not") => ~VS(doc, j, Get(S, "not"), n - 1))
   /\ (j.t = "obj" =>
         /\ (Has(S, "required") => \A r \in Elems(Get(S, "required")) : StrOf(r) \in Keys(j))
         /\ \A kv \in j.m :
